@@ -22,6 +22,7 @@ TIES = {"M4T": [[["trafo", [0, 1]]], [["trafo", [1, 0]]], [["line", [0]], ["traf
                 [["trafo", [0, 2, 1]], ["line", [5]]]],
         "W3M": [[["line", [0, 1]]], [["line", [1, 0]]], [["trafo", [0]], ["line", [1, 0]]], [["line", [1, 2, 0]]]]}
 PROCS = (1, 2, 3, 4)
+MAX_CHUNKS = 5
 
 
 def _call(cp, net, desc, n_procs, raise_errors=False):
@@ -145,7 +146,19 @@ def run_case(desc):
         if live and not d.batches and not exc_id:
             note("parallel_equals_sequential", P, None, "no_pool_batch", {"n_procs": P}, toks0)
         compare(r_id, exc_id, P, list(range(n_chunks)))
-        orders = list(itertools.permutations(range(n_chunks))) if n_chunks else []
+        if n_chunks <= MAX_CHUNKS:
+            orders = list(itertools.permutations(range(n_chunks))) if n_chunks else []
+        else:
+            # beyond the bound (never with the code as written: <=5 chunks by construction of the lists; a rewrite of
+            # the pool call may chunk differently): identity, reversed, all rotations, all adjacent transpositions
+            out["counts"]["lists_beyond_chunk_bound"] = out["counts"].get("lists_beyond_chunk_bound", 0) + 1
+            idt = list(range(n_chunks))
+            cand = [idt, idt[::-1]] + [idt[k:] + idt[:k] for k in range(1, n_chunks)]
+            for k in range(n_chunks - 1):
+                o = list(idt)
+                o[k], o[k + 1] = o[k + 1], o[k]
+                cand.append(o)
+            orders = sorted(set(tuple(o) for o in cand))
         for order in orders:
             r, exc, d2 = run(P, order, memo)
             out["n"] += 1
@@ -268,9 +281,11 @@ def explore(tier, seed):
         res = run_case(c)
         rep.add_case_result(c, res)
     rep.samples.append(core.jsonable(real[0]))
+    if rep.extra.get("lists_beyond_chunk_bound"):
+        rep.exhaustive = False
     rep.extra["lists"] = len(cases)
     rep.extra["n_procs"] = list(PROCS)
-    rep.extra["max_chunks"] = 5
+    rep.extra["max_chunks"] = MAX_CHUNKS
     rep.extra["pool_install_point"] = "pandapower.contingency.contingency_parallel.mp (module attribute; code calls mp.Pool(processes=n).map)"
     rep.assumptions = ["completion order is the only scheduling freedom modelled; per-process global state of pool workers is not",
                        "all permutations are executed (superset of the orders feasible with n_procs workers; schedules_feasible is reported)",
